@@ -9,4 +9,4 @@ package os
 
 // C09: every call of Module() builds its module from objects allocated in that call (NewBuiltinsModule writes a
 // back-reference to the module into each builtin it is given; see modules/math).
-//@ pkgcallpre[C09.module.fresh] C09 NewBuiltinsModule: fresh(arg1) && forallA(k, string, haskey(arg1, k) ==> fresh(arg1[k]))
+//@ pkgcallpre[mod.fresh] C09,C11 NewBuiltinsModule: fresh(arg1) && forallA(k, string, haskey(arg1, k) ==> fresh(arg1[k]))
